@@ -351,6 +351,9 @@ type exec struct {
 	pending    []*expect
 	nontrivial bool
 	all        []*resource.CollectionChange
+	// tableViolated is set once a decision-table row was reported in this scenario; a later fold mismatch is then
+	// a consequence of that row and is counted instead of being reported under a second key
+	tableViolated bool
 }
 
 func (x *exec) rendered() []string {
@@ -442,6 +445,9 @@ func (x *exec) refList(filtered bool) []proto.Message {
 }
 
 func (x *exec) violation(key, what string) {
+	if strings.HasPrefix(key, "C08/table/") {
+		x.tableViolated = true
+	}
 	detail := fmt.Sprintf("%s\nscenario: predicate %s; %s\nmodel now: %s\nevents received so far: %s",
 		what, predString(x.sc.Pred), x.sc.desc(), vk.ListJSON(x.refList(false)), strings.Join(x.rendered(), " "))
 	x.r.Violation(key, detail, x.sc)
@@ -541,7 +547,9 @@ func (x *exec) listChecks(where string) {
 		x.violation("C08/list/"+diffClass(listMap(real), listMap(want)), fmt.Sprintf("%s: List(WithInclude) = %s, the filtered collection holds %s", where, vk.ListJSON(real), vk.ListJSON(want)))
 	}
 	folded := x.view.Sorted()
-	if !vk.SameList(folded, real) {
+	if !vk.SameList(folded, real) && x.tableViolated {
+		x.r.Count("fold-mismatches-attributed-to-a-reported-table-row", 1)
+	} else if !vk.SameList(folded, real) {
 		x.violation("C08/fold/"+mode+"/"+diffClass(x.view.Items, listMap(real)), fmt.Sprintf("%s: fold of the filtered stream = %s but List(WithInclude) = %s", where, vk.ListJSON(folded), vk.ListJSON(real)))
 	}
 	if unf := x.col.List(); !vk.SameList(unf, x.refList(false)) {
@@ -775,7 +783,7 @@ func (g *generic) historyPhase() {
 
 // longPhase: random histories of length 5-10 with random predicates.
 func (g *generic) longPhase() {
-	n := g.r.Pick(3000, 300000)
+	n := g.r.Pick(3000, 400000)
 	for k := 0; k < n; k++ {
 		i, mine := g.next()
 		if !mine {
